@@ -193,7 +193,9 @@ func (e *Exchange) IsCacheable(l *log.Logger) bool {
 		return false
 	}
 
-	cacheDirectives := parseCacheControlDirectives(e.ResponseHeaders.Get("Cache-Control"))
+	// All Cache-Control field lines count (RFC 7230 Section 3.2.2); the serialized exchange
+	// carries them comma-joined, so evaluate the same combined value here.
+	cacheDirectives := parseCacheControlDirectives(strings.Join(e.ResponseHeaders.Values("Cache-Control"), ","))
 
 	// "o  the "no-store" cache directive (see Section 5.2) does not appear
 	//     in request or response header fields, and"
